@@ -38,7 +38,8 @@ def dotted(node) -> Optional[str]:
         parts.append(node.attr)
         node = node.value
     if isinstance(node, ast.Name):
-        parts.append(node.id)
+        # `import numpy` and `import numpy as np` spell the same module
+        parts.append("np" if node.id == "numpy" else node.id)
         return ".".join(reversed(parts))
     return None
 
